@@ -384,3 +384,35 @@ Proof.
   exists (abs_doc2 e st' root), evs'. split; [exact HS|]. split; [exact Hstrict|]. split; [exact Hden|]. split; [|exact MG'].
   rewrite HS. apply Proofs.ParserProofsStrict3.decode_lang_serialize; [|exact Hstrict]. rewrite HFind. exact Hden.
 Qed.
+
+(* C07 on this class (the string table is forced off for Wireless Village by the encoder; version and anonymity vary) *)
+Theorem options_decode_equal_wv tblb TBL L v1 v2 s1 s2 a1 a2 k tag attrs ch bs1 bs2 :
+  let o1 := mk_opts v1 s1 k a1 in let o2 := mk_opts v2 s2 k a2 in
+  is_wv (to_blang L) = true -> exts_ok L = true -> tag_tbl_ok (enc_env (to_blang L) o1) = true ->
+  tree_ok5 L aok_none (tok_wv k) 0 true None (NElt tag attrs ch) = true ->
+  find (fun x => l_id x =? l_id L) TBL = Some L ->
+  v1 < 4 -> v2 < 4 -> l_pub_num L < 4294967296 -> l_pub_num L <> 0 ->
+  (match l_pub_text L with Some p => okb (P.B p) = true | None => True end) ->
+  len bs1 < 4294967296 -> len bs2 < 4294967296 ->
+  enc_wbxml tblb (to_blang L) o1 [NElt tag attrs ch] = EOk bs1 ->
+  enc_wbxml tblb (to_blang L) o2 [NElt tag attrs ch] = EOk bs2 ->
+  exists ev1 ev2, S.decode_lang TBL (l_id L) bs1 = Some ev1 /\ S.decode_lang TBL (l_id L) bs2 = Some ev2 /\
+                  merge_chars ev1 = merge_chars ev2.
+Proof.
+  cbv zeta. intros HW HXO HTB HT HFind Hv1 Hv2 Hn1 Hn0 Hpt Hl1 Hl2 E1 E2.
+  assert (PID : forall v s a, header_public_id (enc_env (to_blang L) (mk_opts v s k a)) < 4294967296 /\
+                              header_public_id (enc_env (to_blang L) (mk_opts v s k a)) <> 0 /\
+                              match header_pid (enc_env (to_blang L) (mk_opts v s k a)) with
+                              | Some p => okb p = true | None => True end).
+  { intros v s a. unfold header_public_id, header_pid, header_public_id. cbn [e_anonymous enc_env make_env e_lang to_blang bl_pub_num bl_pub_text o_anonymous].
+    destruct a; cbn [negb andb].
+    - rewrite andb_false_r. split; [lia|]. split; [lia|exact I].
+    - split; [exact Hn1|]. split; [exact Hn0|]. destruct ((l_pub_num L =? 1) && true); [|exact I].
+      destruct (l_pub_text L); [exact Hpt|exact I]. }
+  destruct (PID v1 s1 a1) as (P1 & P2 & P3). destruct (PID v2 s2 a2) as (Q1 & Q2 & Q3).
+  destruct (strict_decode_of_encoding_wv tblb TBL L (mk_opts v1 s1 k a1) tag attrs ch bs1 HW HXO HTB HT HFind Hv1 P1 P2 P3 Hl1 E1)
+    as (d1 & ev1 & _ & _ & _ & D1' & M1).
+  destruct (strict_decode_of_encoding_wv tblb TBL L (mk_opts v2 s2 k a2) tag attrs ch bs2 HW HXO HTB HT HFind Hv2 Q1 Q2 Q3 Hl2 E2)
+    as (d2 & ev2 & _ & _ & _ & D2' & M2).
+  exists ev1, ev2. split; [exact D1'|]. split; [exact D2'|]. rewrite M1, M2. reflexivity.
+Qed.
